@@ -1907,3 +1907,108 @@ Proof.
   - intros u Hw. rewrite Tp, Tps. apply Wk in Hw. destruct (e_wprog _ _ _ R u Hw) as [A|A]; [left; exact A|right; apply Pg; exact A].
   - intros q. rewrite M7. intro H. apply Pg. apply (e_exited _ _ _ R q H).
 Qed.
+
+Lemma finok_facts : forall f, (forall j, In j f -> finok j) -> (forall q, lpend q f = []) /\ (forall j, In j f -> hq j).
+Proof.
+  induction f as [|j f IH]; intro H; [split; [reflexivity|intros j []]|].
+  destruct IH as [A B]; [intros; apply H; right; assumption|]. pose proof (H j (or_introl eq_refl)) as Fj.
+  split.
+  - intro q. rewrite (lpend_cons q j f), A, app_nil_r. destruct j; cbn in Fj; try contradiction. destruct a; cbn in Fj; try contradiction; reflexivity.
+  - intros j0 [<-|Hin]; [|apply B; exact Hin]. destruct j; cbn in Fj; try contradiction. destruct a; cbn in Fj; try contradiction; exact Logic.I.
+Qed.
+
+(** the exit sequence of a piped worker becomes its continuation *)
+Lemma e_final : forall st m t,
+  ERel ENone st m -> t <> main -> tcont (thr st t) = [] -> (forall j, In j (tfinal (thr st t)) -> finok j) ->
+  ERel ENone (upd_th st t (set_tfinal (set_tcont (th st t) (tfinal (th st t))) [])) m.
+Proof.
+  intros st m t R Nm Hc Hfin.
+  set (st' := upd_th st t (set_tfinal (set_tcont (th st t) (tfinal (th st t))) [])).
+  destruct (finok_facts _ Hfin) as [Fl Fh].
+  assert (Ho : forall u, u <> t -> thr st' u = thr st u) by (intros u Hu; unfold st'; thr_simpl).
+  assert (Hc' : tcont (thr st' t) = tfinal (thr st t)) by (unfold st'; thr_simpl).
+  assert (Hf' : tfinal (thr st' t) = []) by (unfold st'; thr_simpl).
+  assert (Tp : forall u, tpipe (thr st' u) = tpipe (thr st u)) by (intro u; unfold st'; thr_simpl).
+  assert (Cu : forall u, tcur (thr st' u) = tcur (thr st u)) by (intro u; unfold st'; thr_simpl).
+  assert (Cat : forall u, tcont (thr st' u) ++ tfinal (thr st' u) = tcont (thr st u) ++ tfinal (thr st u)).
+  { intro u. destruct (Nat.eq_dec u t) as [->|E]; [rewrite Hc', Hf', Hc, app_nil_r; reflexivity|rewrite Ho; auto]. }
+  assert (Tps : forall u, tpushes (thr st' u) = tpushes (thr st u)) by (intro u; rewrite !tpushes_app_eq, Cat; reflexivity).
+  assert (Mc : mcont st' = mcont st) by (unfold mcont; rewrite Ho; auto).
+  assert (Pl : pipeline st' = pipeline st) by (unfold pipeline; fold (mcont st') (mcont st); rewrite Mc; reflexivity).
+  assert (Wk : forall u, wkr st' u <-> wkr st u) by (intro u; unfold wkr; rewrite Tp; tauto).
+  assert (Lp : forall u q, lpend q (tcont (thr st' u)) = lpend q (tcont (thr st u))).
+  { intros u q. destruct (Nat.eq_dec u t) as [->|E]; [rewrite Hc', Hc, Fl; reflexivity|rewrite Ho; auto]. }
+  assert (Pg : forall q, prog14 st' m q <-> prog14 st m q) by (intro q; unfold prog14; rewrite Pl, Mc; tauto).
+  constructor.
+  - apply (e_bad _ _ _ R).
+  - apply (e_nthr _ _ _ R).
+  - intros t0 q E. discriminate E.
+  - intros u q. rewrite Tp. apply (e_owner _ _ _ R).
+  - intros u u'. rewrite !Wk, !Tp. apply (e_wuniq _ _ _ R).
+  - intros u. rewrite Wk, Tp. apply (e_wex _ _ _ R).
+  - intros q H. destruct (e_exw _ _ _ R q H) as [u [A B]]. exists u. rewrite Wk, Tp. auto.
+  - apply (e_noex _ _ _ R).
+  - rewrite Mc. apply (e_ins _ _ _ R).
+  - apply (e_uniq _ _ _ R).
+  - intros u Hw. cbn zeta. rewrite Tp, Mc, Lp. apply Wk in Hw. apply (e_ls _ _ _ R u Hw).
+  - intros u x Hw. rewrite Cu, Tp. apply Wk in Hw. apply (e_lscur _ _ _ R u x Hw).
+  - rewrite Mc. apply (e_lsdone _ _ _ R).
+  - intros q H. rewrite Mc. destruct (e_term _ _ _ R q H) as [A [B C]]. split; [exact A|]. split; [intros u x; rewrite Tps; apply B|exact C].
+  - intros m0 q. rewrite Mc. intro H. destruct (e_hdel _ _ _ R m0 q H) as [A [B C]]. split; [exact A|]. split; [exact B|intros u x; rewrite Tps; apply C].
+  - intros q. rewrite Mc. intro H. destruct (e_hterm _ _ _ R q H) as [A [B C]]. split; [exact A|]. split; [intros u x; rewrite Tps; apply B|exact C].
+  - rewrite Mc. apply (e_hpos _ _ _ R).
+  - intros u j Hu Hj. destruct (Nat.eq_dec u t) as [->|E]; [rewrite Hc' in Hj; apply Fh; exact Hj|rewrite (Ho u E) in Hj; apply (e_hmain _ _ _ R u j Hu Hj)].
+  - intros u Hw. cbn zeta. rewrite Tp, Mc, Cat. apply Wk in Hw. apply (e_panic _ _ _ R u Hw).
+  - intros u q m0 a b. rewrite Cat, Wk, Tp. apply (e_porder _ _ _ R).
+  - rewrite Mc. apply (e_ufterm _ _ _ R).
+  - intros u Hw. rewrite Tp, Tps. apply Wk in Hw. destruct (e_wprog _ _ _ R u Hw) as [A|A]; [left; exact A|right; apply Pg; exact A].
+  - intros q H. apply Pg. apply (e_exited _ _ _ R q H).
+Qed.
+
+(** the thread has exited: the monitor sees [EExit] *)
+Lemma e_exit : forall st m t,
+  ERel ENone st m -> (t < nthr st)%nat -> tcont (thr st t) = [] -> tfinal (thr st t) = [] ->
+  ERel ENone st (m14r_step m (t, EExit)).
+Proof.
+  intros st m t R Ht Hc Hf.
+  set (m' := m14r_step m (t, EExit)).
+  pose proof (owner_of st m t R Ht) as Ow.
+  assert (Mx : (0 <= tpipe (thr st t) /\ m14_exited m' = tpipe (thr st t) :: m14_exited m) \/ m14_exited m' = m14_exited m).
+  { unfold m', m14r_step, m14_step. cbn. rewrite Ow. destruct (Z.leb_spec 0 (tpipe (thr st t))); [left; split; [assumption|reflexivity]|right; reflexivity]. }
+  assert (Mf : m14_owner m' = m14_owner m /\ m14_lsend m' = m14_lsend m /\ m14_lsdone m' = m14_lsdone m /\ m14_fwd m' = m14_fwd m /\
+               m14_term m' = m14_term m /\ m14_panic m' = m14_panic m /\ m14_bad m' = m14_bad m /\ b_nthr (m14_b m') = b_nthr (m14_b m)).
+  { unfold m'. split; [|split; [|split; [|split; [|split; [|split; [|split]]]]]];
+      try (rewrite m14r_b_step; apply mb_nthr_nonret; intros v E; discriminate E);
+      unfold m14r_step, m14_step; cbn; destruct (get_tid t (m14_owner m)); reflexivity. }
+  destruct Mf as [M1 [M2 [M3 [M4 [M5 [M6 [M8 M9]]]]]]].
+  assert (Pg : forall q, prog14 st m' q <-> prog14 st m q) by (intro q; unfold prog14; rewrite M5; tauto).
+  constructor.
+  - rewrite M8. apply (e_bad _ _ _ R).
+  - rewrite M9. apply (e_nthr _ _ _ R).
+  - intros t0 q E. discriminate E.
+  - rewrite M1, M9. apply (e_owner _ _ _ R).
+  - apply (e_wuniq _ _ _ R).
+  - apply (e_wex _ _ _ R).
+  - apply (e_exw _ _ _ R).
+  - intros q Hq. rewrite M2, M4, M5, M6, M3. destruct (e_noex _ _ _ R q Hq) as [A1 [A2 [A3 [A4 [A5 [A6 [A7 [A8 A9]]]]]]]].
+    repeat split; auto. destruct Mx as [[L ->]| ->]; [|exact A8]. rewrite memZ_cons_other; [exact A8|].
+    intro E. rewrite <- E in Hq. rewrite (e_wex _ _ _ R t (conj Ht L)) in Hq. discriminate Hq.
+  - apply (e_ins _ _ _ R).
+  - apply (e_uniq _ _ _ R).
+  - rewrite M2, M4. apply (e_ls _ _ _ R).
+  - rewrite M2. apply (e_lscur _ _ _ R).
+  - rewrite M3, M4. apply (e_lsdone _ _ _ R).
+  - rewrite M5. apply (e_term _ _ _ R).
+  - apply (e_hdel _ _ _ R).
+  - apply (e_hterm _ _ _ R).
+  - apply (e_hpos _ _ _ R).
+  - apply (e_hmain _ _ _ R).
+  - rewrite M5, M6. apply (e_panic _ _ _ R).
+  - apply (e_porder _ _ _ R).
+  - rewrite M6. apply (e_ufterm _ _ _ R).
+  - intros u Hu. destruct (e_wprog _ _ _ R u Hu) as [A|A]; [left; exact A|right; apply Pg; exact A].
+  - intros q H. apply Pg. destruct Mx as [[L E]|E]; rewrite E in H; [|apply (e_exited _ _ _ R q H)].
+    unfold memZ in H. cbn in H. apply orb_true_iff in H. destruct H as [H|H]; [|apply (e_exited _ _ _ R q H)].
+    apply Z.eqb_eq in H. subst q. destruct (e_wprog _ _ _ R t (conj Ht L)) as [[x Hx]|A]; [|exact A].
+    exfalso. unfold tpushes in Hx. rewrite Hc, Hf in Hx. destruct Hx.
+Qed.
